@@ -20,10 +20,12 @@ reports 0 bytes at its k-th call, null placements: a call made with a null handl
 already cleared (double close, config consumed by mla_archive_new, closing and flushing again after a close that failed, \
 closing while a file is still open and then using the handle), then extraction of the collected archive through \
 mla_roarchive_extract with throttled read / seek callbacks, per-file writers with their own schedules, a file callback that \
-declines some names). Cases run in worker processes. Oracle: without failure placement every call returns 0, the collected \
+declines some names, optionally a second extraction in which the read callback, the seek callback or one extraction writer \
+reports an error at its k-th call; mla_roarchive_info on the collected archive). Cases run in worker processes. Oracle: without failure placement every call returns 0, the collected \
 bytes are read by the Rust reader to exactly the files passed in, and every accepted extraction writer receives exactly its \
 file; calls with null / cleared handles return a non-zero status and change nothing; with a failing callback some call \
-returns non-zero and the following calls still return; the worker process never dies. Non-trivial = >= 2 interleaved files \
+returns non-zero and the following calls still return (extraction: non-zero exactly when a callback did report an error, \
+configuration handle cleared, delivered bytes are prefixes); mla_roarchive_info reports the version and layer bits of the header; the worker process never dies. Non-trivial = >= 2 interleaved files \
 with a partial acceptance, or >= 1 null / failure placement; distinct = hash of the case";
 
 // ------------------------------------------------------------ FFI surface (from bindings/C/mla.h)
@@ -53,6 +55,14 @@ struct Lib {
     archive_file_close: extern "C" fn(*mut c_void, *mut *mut c_void) -> u64,
     archive_close: extern "C" fn(*mut *mut c_void) -> u64,
     roarchive_extract: extern "C" fn(*mut *mut c_void, Option<ReadCb>, Option<SeekCb>, Option<FileCb>, *mut c_void) -> u64,
+    roarchive_info: extern "C" fn(Option<ReadCb>, *mut c_void, *mut ArchiveInfo) -> u64,
+}
+
+#[repr(C)]
+#[derive(Default)]
+struct ArchiveInfo {
+    version: u32,
+    layers: u8,
 }
 
 fn load() -> Result<Lib, String> {
@@ -85,6 +95,7 @@ fn load() -> Result<Lib, String> {
             archive_file_close: sym!("mla_archive_file_close"),
             archive_close: sym!("mla_archive_close"),
             roarchive_extract: sym!("mla_roarchive_extract"),
+            roarchive_info: sym!("mla_roarchive_info"),
         })
     }
 }
@@ -139,11 +150,22 @@ struct Source {
     decline: u16,
     seen: u32,
     wsched: Vec<u16>,
+    /// the read / seek callback reports an error at this call (1-based), the k-th extraction writer fails at its j-th call
+    read_fail_at: Option<u32>,
+    seek_fail_at: Option<u32>,
+    seeks: u32,
+    writer_fail: Option<(u32, u32)>,
+    file_cb_fail_at: Option<u32>,
+    injected: u32,
 }
 
 extern "C" fn read_cb(buffer: *mut u8, len: u32, ctx: *mut c_void, read: *mut u32) -> i32 {
     let s = unsafe { &mut *(ctx as *mut Source) };
     s.calls += 1;
+    if s.read_fail_at == Some(s.calls) {
+        s.injected += 1;
+        return 5;
+    }
     let avail = (s.data.len() as u64).saturating_sub(s.pos) as usize;
     let cap = s.sched[(s.calls as usize) % s.sched.len()].max(1) as usize;
     let n = cap.min(len as usize).min(avail);
@@ -156,6 +178,11 @@ extern "C" fn read_cb(buffer: *mut u8, len: u32, ctx: *mut c_void, read: *mut u3
 }
 extern "C" fn seek_cb(offset: i64, whence: i32, ctx: *mut c_void, new_pos: *mut u64) -> i32 {
     let s = unsafe { &mut *(ctx as *mut Source) };
+    s.seeks += 1;
+    if s.seek_fail_at == Some(s.seeks) {
+        s.injected += 1;
+        return 29;
+    }
     let base: i128 = match whence {
         0 => 0,
         1 => s.pos as i128,
@@ -175,10 +202,18 @@ extern "C" fn file_cb(ctx: *mut c_void, name: *const u8, len: usize, fw: *mut Fi
     let n = String::from_utf8_lossy(unsafe { std::slice::from_raw_parts(name, len) }).to_string();
     let idx = s.seen;
     s.seen += 1;
+    if s.file_cb_fail_at == Some(idx) {
+        // an error of the file callback is the documented way to skip a file: counted, not expected to fail the call
+        return 13;
+    }
     if s.decline >> (idx % 16) & 1 == 1 {
         return 1;
     }
-    let sink = Box::new(Sink { buf: Vec::new(), sched: s.wsched.clone(), calls: idx, partial: 0, fail_at: None, zero_at: None, flushes: 0 });
+    let fail_at = match s.writer_fail {
+        Some((w, at)) if w == idx => Some(idx + at + 1),
+        _ => None,
+    };
+    let sink = Box::new(Sink { buf: Vec::new(), sched: s.wsched.clone(), calls: idx, partial: 0, fail_at, zero_at: None, flushes: 0 });
     let p = s.writers.entry(n).or_insert(sink);
     unsafe {
         (*fw).write_callback = Some(write_cb);
@@ -225,6 +260,9 @@ pub struct Case {
     pub wsched: Vec<u16>,
     pub decline: u16,
     pub seed: u16,
+    /// failure placement on the extraction side: (kind 0 read / 1 seek / 2 writer, position)
+    #[serde(default)]
+    pub xfail: Option<(u8, u16)>,
 }
 
 fn pem_pub(k: &[u8; 32]) -> CString {
@@ -471,7 +509,7 @@ pub fn oracle(c: &Case, st: &mut Stats) -> Result<(), String> {
     st.label(format!("files={}", c.files.len().min(6)));
     st.label(format!("nulls={}", c.nulls.len().min(4)));
     st.label(if failing { "failure-placement" } else { "no-failure" });
-    if (interleaved && sink.partial > 0) || !c.nulls.is_empty() || failing {
+    if (interleaved && sink.partial > 0) || !c.nulls.is_empty() || failing || c.xfail.is_some() {
         st.nontrivial(util::hash64(format!("{c:?}").as_bytes()));
     }
     st.sample(|| json!({"files": c.files, "write_callback_accepts": c.sched, "failure_at_call": c.fail_at, "zero_bytes_at_call": c.zero_at, "null_placements": c.nulls.iter().map(|n| format!("{n:?}")).collect::<Vec<_>>(), "statuses": statuses.iter().take(8).map(|(n, s)| format!("{n}={s:#x}")).collect::<Vec<_>>(), "callback_calls": sink.calls, "partial_acceptances": sink.partial, "archive_len": sink.buf.len()}));
@@ -509,7 +547,70 @@ pub fn oracle(c: &Case, st: &mut Stats) -> Result<(), String> {
     if s != 0 {
         return Err(format!("mla_reader_config_add_private_key failed: {s:#x}"));
     }
-    let mut src = Box::new(Source { data: sink.buf.clone(), pos: 0, sched: if c.rsched.is_empty() { vec![1] } else { c.rsched.clone() }, calls: 0, writers: BTreeMap::new(), decline: c.decline, seen: 0, wsched: if c.wsched.is_empty() { vec![7] } else { c.wsched.clone() } });
+    let new_source = || Box::new(Source { data: sink.buf.clone(), pos: 0, sched: if c.rsched.is_empty() { vec![1] } else { c.rsched.clone() }, calls: 0, writers: BTreeMap::new(), decline: c.decline, seen: 0, wsched: if c.wsched.is_empty() { vec![7] } else { c.wsched.clone() }, read_fail_at: None, seek_fail_at: None, seeks: 0, writer_fail: None, file_cb_fail_at: None, injected: 0 });
+    // ---- mla_roarchive_info on the collected archive
+    {
+        let mut isrc = new_source();
+        let iptr = (&mut *isrc) as *mut Source as *mut c_void;
+        let mut info = ArchiveInfo::default();
+        let s = (lib.roarchive_info)(Some(read_cb), iptr, &mut info);
+        if s != 0 {
+            return Err(format!("mla_roarchive_info failed on the archive the C interface produced: {s:#x}"));
+        }
+        let h = crate::refimpl::parse_header(&sink.buf).map_err(|e| format!("archive produced through the C interface: header not decodable per FORMAT.md: {e}"))?;
+        if info.version != 1 || info.layers != h.layers {
+            return Err(format!("mla_roarchive_info reports version {} layers {:#x}, the header holds version 1 layers {:#x}", info.version, info.layers, h.layers));
+        }
+        if has(NullPlace::ExtractNullCallbacks) {
+            expect_err("mla_roarchive_info(NULL read callback)", (lib.roarchive_info)(None, iptr, &mut info))?;
+            expect_err("mla_roarchive_info(NULL info_out)", (lib.roarchive_info)(Some(read_cb), iptr, std::ptr::null_mut()))?;
+        }
+        // a read callback that fails at once
+        let mut fsrc = new_source();
+        fsrc.read_fail_at = Some(1);
+        expect_err("mla_roarchive_info with a failing read callback", (lib.roarchive_info)(Some(read_cb), (&mut *fsrc) as *mut Source as *mut c_void, &mut info))?;
+    }
+    // ---- extraction with a callback that reports failure: error status, configuration handle cleared, no crash
+    if let Some((kind, at)) = c.xfail {
+        let mut fsrc = new_source();
+        match kind % 3 {
+            0 => fsrc.read_fail_at = Some(at as u32 + 1),
+            1 => fsrc.seek_fail_at = Some((at as u32 % 4) + 1),
+            _ => fsrc.writer_fail = Some((at as u32 % 4, at as u32 / 4 % 8)),
+        }
+        let fptr = (&mut *fsrc) as *mut Source as *mut c_void;
+        let mut fcfg: *mut c_void = null;
+        if (lib.reader_config_new)(&mut fcfg) != 0 || (lib.reader_config_add_private_key)(fcfg, pem_priv(&keys.recipients[0].to_bytes()).as_ptr()) != 0 {
+            return Err("mla_reader_config_new / add_private_key failed".into());
+        }
+        let s = (lib.roarchive_extract)(&mut fcfg, Some(read_cb), Some(seek_cb), Some(file_cb), fptr);
+        let writer_hit = fsrc.writers.values().any(|w| w.fail_at.map_or(false, |f| w.calls >= f));
+        let hit = fsrc.injected > 0 || writer_hit;
+        st.label(match (kind % 3, hit) {
+            (0, true) => "extraction: read callback failed",
+            (1, true) => "extraction: seek callback failed",
+            (2, true) => "extraction: writer callback failed",
+            _ => "extraction: failure placement not reached",
+        });
+        if hit && s == 0 {
+            return Err(format!("mla_roarchive_extract returned MLA_STATUS_SUCCESS although the {} callback reported an error", ["read", "seek", "write"][(kind % 3) as usize]));
+        }
+        if !hit && s != 0 {
+            return Err(format!("mla_roarchive_extract failed ({s:#x}) although no callback reported an error"));
+        }
+        if !fcfg.is_null() {
+            return Err("mla_roarchive_extract did not clear the configuration handle it consumed (failing extraction)".into());
+        }
+        // nothing delivered to any writer may differ from a prefix of the file
+        for (n, w) in &fsrc.writers {
+            if let Some(m) = model.get(n) {
+                if !m.starts_with(&w.buf) {
+                    return Err(format!("failing extraction delivered bytes to the writer of {n} that are not a prefix of the file"));
+                }
+            }
+        }
+    }
+    let mut src = new_source();
     let src_ptr = (&mut *src) as *mut Source as *mut c_void;
     if has(NullPlace::ExtractNullCallbacks) {
         let mut tmp: *mut c_void = null;
@@ -578,9 +679,9 @@ fn case() -> impl Strategy<Value = Case> {
         prop::option::weighted(0.08, 0u16..60),
         prop::collection::vec(np, 0..3),
         prop_oneof![Just(0u8), 1u8..6],
-        (sched(), sched(), any::<u16>(), any::<u16>()),
+        (sched(), sched(), any::<u16>(), any::<u16>(), prop::option::weighted(0.3, (0u8..3, prop_oneof![0u16..40, any::<u16>()]))),
     )
-        .prop_map(|(files, order, level, sched, fail_at, zero_at, nulls, flush_every, (rsched, wsched, decline, seed))| Case { files, order, level, sched, fail_at, zero_at, nulls, flush_every, rsched, wsched, decline, seed })
+        .prop_map(|(files, order, level, sched, fail_at, zero_at, nulls, flush_every, (rsched, wsched, decline, seed, xfail))| Case { files, order, level, sched, fail_at, zero_at, nulls, flush_every, rsched, wsched, decline, seed, xfail })
 }
 
 pub fn worker(args: &[String]) -> i32 {
